@@ -865,15 +865,22 @@ func (ds *Dataset) GetChangesWatermark() (uint64, error) {
 
 		changesIterator.Rewind()
 		item := changesIterator.Item()
+		if item == nil {
+			return nil
+		}
 		k := item.Key()
+		if len(k) < 14 || !bytes.HasPrefix(k, searchBuffer[:6]) {
+			// no changes yet: the iterator rests on a key of a neighbouring dataset or index, not on ours
+			return nil
+		}
 
-		waterMark = binary.BigEndian.Uint64(k[6:14])
+		// need to add one to point to next change in searches.
+		waterMark = binary.BigEndian.Uint64(k[6:14]) + 1
 
 		return nil
 	})
 
-	// need to add one to point to next change in searches.
-	return waterMark + 1, err
+	return waterMark, err
 }
 
 /*
